@@ -1,4 +1,4 @@
-From FV Require Import Common.ExtractTypes HashMap.HashMapModel.
+From FV Require Import Common.ExtractTypes Common.EventLog HashMap.HashMapModel HashMap.HashMapLog.
 From Coq Require Extraction.
 From Coq Require Import ExtrOcamlBasic.
-Extraction "../build/extract/hashmap_model.ml" types_witness empty_hm step run.
+Extraction "../build/extract/hashmap_model.ml" types_witness empty_hm step run empty_lhm lstep destructor_evs.
